@@ -296,6 +296,9 @@ ADV = {
                      b"\x00\x00\x02\x13\x01\x01\x00"),
     "enc_ext": ("s", 22, b"\x08\x00\x00\x02\x00\x00"),
     "empty_handshake_record": ("c", 22, b""),
+    # post-handshake authentication: valid Certificate and
+    # CertificateVerify, Finished with a wrong verify_data
+    "pha_bad_finished": ("c", 22, None),
 }
 ADV_OK_IGNORED = ("hb_response_unsolicited", "hb_bad_type", "hb_length_lie")
 
@@ -321,11 +324,28 @@ def adversarial(w, i, op, history):
         if r:
             return r
     chain_before = p.s.session.clientCertChain
-    if name == "ku_split":
-        pass
-    outs, _ = drive({sender: sconn._sendMsg(RawMsg(ct, data), False,
-                                            False)}, p.link,
-                    on_stall="leave")
+    if name == "pha_bad_finished":
+        from vlib.deviant import Deviant
+
+        def flip_fin(dev, idx, ct_, data_):
+            if ct_ == 22 and data_[:1] == b"\x14":
+                b = bytearray(data_)
+                b[-1] ^= 0x01
+                return [(ct_, bytes(b))]
+            return None
+        outs, _ = drive({"s": p.s.request_post_handshake_auth()}, p.link,
+                        on_stall="leave")
+        if not outs["s"].ok:
+            return bad("pha-request-fails", repr(outs["s"]),
+                       labels=w.labels)
+        dev = Deviant(p.c, flip_fin)
+        sc.do_read(p, "c", 10, 0)
+        if not dev.applied:
+            return good(nt=False, labels=w.labels + ["adv-not-applicable"])
+    else:
+        outs, _ = drive({sender: sconn._sendMsg(RawMsg(ct, data), False,
+                                                False)}, p.link,
+                        on_stall="leave")
     got, last = drain(w, vic)
     w.labels.append("adv=" + name)
     hist = "step %d %r; history %r" % (i, op, history[:i + 1])
@@ -378,8 +398,9 @@ def op_strategy():
         st.tuples(st.just("ku"), side, st.booleans()),
         st.tuples(st.just("ku"), side, st.booleans()),
         st.tuples(st.just("pha")),
-        st.tuples(st.just("hb"), side, st.sampled_from([0, 1, 16, 300]),
-                  st.sampled_from([16, 16, 17, 100, 0, 15])),
+        st.tuples(st.just("hb"), side, st.sampled_from(
+            [0, 1, 16, 300, 16365, 16364]),
+            st.sampled_from([16, 16, 17, 100, 0, 15])),
     ).map(list)
 
 
@@ -417,7 +438,9 @@ def explicit(tier, seed):
     yield {"v": "tls13", "ops": [["pha"], ["pha"], ["w", "c", 5],
                                  ["r", "c"], ["r", "s"], ["ku", "c", False],
                                  ["w", "c", 9], ["r", "s"]]}
-    for n, pad in ((0, 16), (1, 16), (300, 100), (5, 15), (5, 0)):
+    # (the last three fill a record exactly / to one byte short)
+    for n, pad in ((0, 16), (1, 16), (300, 100), (5, 15), (5, 0),
+                   (16365, 16), (16364, 16), (16349, 32)):
         for v in ("tls13", "tls12"):
             yield {"v": v, "ops": [["w", "c", 3], ["hb", "c", n, pad],
                                    ["hb", "s", n, pad], ["w", "s", 4],
